@@ -270,6 +270,8 @@ def run(ck, F):
                 field_chain.setdefault((struct, k), []).append(sp_)
     # ---- R1 / R3: all emits of all writer functions (inlined from the root so that parameters are resolved) + Display arms
     abbr_ok = _abbreviation_alphabet_ok(F)
+    from rules import anchors as A_
+    abbr_fns = [m_.rsplit("::", 1)[-1] for m_ in A_.abbreviation_makers(F)]
     stream = [(e, {"self": "model::doc::RustDocument"}) for e in T.inline(X, T.ROOT) if e.kind == "emit"]
     stream += [(T.IEmit(ev, ev.parts, ev.ctx, ()), {"self": "model::field::RustFieldType"}) for ev in X.events.get(DISPLAY, []) if ev.kind == "emit"]
     n_holes = 0
@@ -387,7 +389,7 @@ def run(ck, F):
                             snake = any(c in ("to_snake_case", "to_camel_case") for c in chain)
                             guard = any(c in IDENT_GUARDS for c in chain)
                             kwt = "rename_keywords" in chain
-                            abbr = "make_abbreviated_namespace" in chain and abbr_ok and (
+                            abbr = any(m_ in chain for m_ in abbr_fns) and abbr_ok and (
                                 _literal_ident_prefix(cx) or "<literal-ident-prefix>" in chain)
                             glued = bool(re.search(r"[A-Za-z0-9_]$", cx["left"])) or bool(re.match(r"^[A-Za-z0-9_]", cx["right"]))
                             if abbr:
@@ -462,9 +464,12 @@ def _abbreviation_alphabet_ok(F):
     `chars()` iteration and passes an `is_ascii_alphanumeric` test on that very character: as an iterator filter before `collect`,
     or as the condition under which it is pushed (including `if !ok { continue }`). At least one such sink must exist."""
     from engine.rulekit import scans
-    root = "model::doc::make_abbreviated_namespace"
+    from rules import anchors as A
+    roots = A.abbreviation_makers(F)
+    if not roots:
+        return False
     g = scans.call_graph(F.lib)
-    fns, frontier = [root], [root]
+    fns, frontier = list(roots), list(roots)
     for _ in range(2):
         nxt = []
         for fn in frontier:
